@@ -9,6 +9,7 @@ import Driver.Summary
 import Driver.Pages
 import Driver.Fmv
 import Driver.Etrade
+import Driver.QuestradeOracle
 open Driver
 
 def runLedger (c : Case) : Res :=
@@ -27,6 +28,21 @@ def runLedger (c : Case) : Res :=
         msg := String.intercalate "; " (os.map (fun (p, m) => p ++ ": " ++ m)) ++
                (if r.verdict == "DIFF" then " || " ++ r.msg else "") }
 
+def runQuestrade (c : Case) : Res :=
+  match parseQt c with
+  | none => { verdict := "BADCASE", msg := "unparsable questrade case" }
+  | some p =>
+    let (fails, tags) := qtOracle p
+    let diff := (p.sheets.zipIdx.filterMap (fun (s, k) => qtCompareSheet p.opts k s)).head?
+    if !fails.isEmpty then
+      { verdict := "ORACLE", tags := "of=C18" :: tags,
+        msg := String.intercalate "; " fails ++
+               (match diff with | some (_, m) => " || " ++ m | none => "") }
+    else
+      match diff with
+      | some (dk, m) => { verdict := "DIFF", tags := s!"dk={dk}" :: tags, msg := m }
+      | none => { verdict := "ok", tags := tags }
+
 def dispatch (c : Case) : Res :=
   match c.family with
   | "ledger" => runLedger c
@@ -38,6 +54,7 @@ def dispatch (c : Case) : Res :=
   | "pages" => runPages c
   | "fmv" => runFmv c
   | "etrade" => runEtrade c
+  | "questrade" => runQuestrade c
   | f => { verdict := "BADCASE", msg := s!"unknown family {f}" }
 
 def main : IO Unit := do
